@@ -1,4 +1,4 @@
-import H2V.Lemmas.ConnWakePReach
+import H2V.Lemmas.ConnWakePConn
 /-
   C06 — progress: no lost wake-up.  Property theorems only; lemmas and definitions in
   `H2V/Lemmas/ConnWakeP*.lean` (see ConnWakePNOTES.md).
@@ -182,6 +182,48 @@ theorem release_capacity_wakes_connection (s : Streams) (k c : Nat) :
     (s.refs = 2 → TaskWoken s s.dropHandle) :=
   ⟨releaseConnectionCapacity_woken, refReleaseCapacity_woken, dropHandle_woken⟩
 
+/-- **(D) the connection task is parked whenever `Connection::poll` answers `Pending`.**  For every
+    connection state, fuel and input: the polling task `c'.cx` is registered in `Actions.task` — the slot
+    every handle operation above wakes — or, when the codec cannot take more, on the transport's write
+    waker.  `Streams::poll_complete` itself answers `Ready` only after registering under the lock, after
+    `buffer_pending` found nothing more to write (no window between "nothing to do" and "parked").
+    `hp`: the model flagged no panic (no firing site is reachable); `hcap`: the write buffer's capacity is
+    at least `chain_threshold + 9` (true from `Conn.init` on: the capacity only grows). -/
+theorem connection_poll_pending_is_parked (n : Nat) (c c' : Conn)
+    (hp : c'.streams.panicked = none) (hcap : c'.codec.w.cap ≥ c'.codec.w.minBufferCapacity) :
+    (Conn.protoPoll n c = (c', .pending) →
+      c'.streams.actions.task = some c'.cx ∨ c'.codec.io.writeWaker = some c'.cx) ∧
+    (Conn.clientPoll n c = (c', .pending) →
+      c'.streams.actions.task = some c'.cx ∨ c'.codec.io.writeWaker = some c'.cx) :=
+  ⟨fun h => protoPoll_pending_parks n c c' h hp hcap, fun h => clientPoll_pending_parks n c c' h hp hcap⟩
+
+theorem poll_complete_ready_is_parked (n : Nat) (s s' : Streams) (w w' : Writer) (io io' : Tio) (tag : String)
+    (h : Streams.pollComplete n s w io tag = (s', w', io', .ready)) : s'.actions.task = some tag :=
+  pollComplete_ready_parks n s s' w w' io io' tag h
+
+/-- non-vacuity: the first poll of a fresh client connection (SETTINGS flushed, nothing to read) is
+    `Pending` and has parked `c` in `Actions.task` -/
+example : (match (Conn.clientPoll 10 (Conn.init {})).2 with | .pending => true | _ => false) = true ∧
+    (Conn.clientPoll 10 (Conn.init {})).1.streams.actions.task = some "c" ∧
+    (Conn.clientPoll 10 (Conn.init {})).1.streams.panicked = none := by decide
+
+/-- **User PING**: `send_ping` wakes the connection task parked in `ping_task` (registered by
+    `send_pending_ping` before it looks at the state: fix F7); the PONG wakes the waiter in `pong_task`;
+    `poll_pong` answers `Pending` only after parking there with no pong received. -/
+theorem user_ping_wakes (c : Conn) (u : UserPings) (hu : c.pingPong.userPings = some u) :
+    (u.state = Generated.Consts.USER_STATE_EMPTY →
+      (c.userSendPing).2 = none ∧ ∀ t, u.pingTask = some t → t ∈ newWakes c.streams c.userSendPing.1.streams) ∧
+    (u.state = Generated.Consts.USER_STATE_PENDING_PONG → c.pingPong.pendingPing = none →
+      (c.pingPong.recvPing true Generated.Consts.PING_USER_PAYLOAD).2.2.1 = u.pongTask.toList) ∧
+    (∀ c' tag, c.userPollPong tag = (c', none) →
+      ∃ u', c'.pingPong.userPings = some u' ∧ u'.pongTask = some tag ∧
+        u'.state ≠ Generated.Consts.USER_STATE_RECEIVED_PONG ∧ u'.state ≠ Generated.Consts.USER_STATE_CLOSED) := by
+  refine ⟨fun hs => userSendPing_wakes c u hu hs, fun hs hp => recvPing_wakes_pong c.pingPong u hu hs hp,
+    fun c' tag h => ?_⟩
+  rcases userPollPong_pending c c' tag h with hn | h
+  · rw [hu] at hn; cases hn
+  · exact h
+
 end H2V.Props.C06
 
 #print axioms H2V.Props.C06.no_waker_dropped_silently
@@ -199,3 +241,6 @@ end H2V.Props.C06
 #print axioms H2V.Props.C06.reserve_capacity_release_wakes_connection
 #print axioms H2V.Props.C06.reserve_capacity_release_wakes_connection_example
 #print axioms H2V.Props.C06.release_capacity_wakes_connection
+#print axioms H2V.Props.C06.connection_poll_pending_is_parked
+#print axioms H2V.Props.C06.poll_complete_ready_is_parked
+#print axioms H2V.Props.C06.user_ping_wakes
